@@ -260,7 +260,12 @@ func SiteFromPanic(val any, stack []byte) string {
 		msg = msg[:80]
 	}
 	fn := ""
-	for _, ln := range strings.Split(string(stack), "\n") {
+	st := string(stack)
+	// start after the innermost panic( frame so that re-panicking deferred functions are not blamed
+	if i := strings.LastIndex(st, "\npanic("); i >= 0 {
+		st = st[i+1:]
+	}
+	for _, ln := range strings.Split(st, "\n") {
 		if strings.HasPrefix(ln, "github.com/goplus/xgo/") {
 			fn = ln
 			if i := strings.LastIndex(fn, "("); i > 0 {
